@@ -206,3 +206,47 @@ pub fn replay_path<A: Clone + Hash>(
 pub fn path_names(actions: &[Action], path: &[usize]) -> Vec<String> {
     path.iter().map(|&i| actions.get(i).map(|a| a.name.clone()).unwrap_or_else(|| format!("?{i}"))).collect()
 }
+
+/// Leaf conformance used by the E2 properties: a tick-free history at the depth bound (or of
+/// length 2) is fed as ONE stream and must reach the table the step-by-step exploration reached.
+/// Reports a violation at `<site>/history-in-one-run/<cfg>`; the replay case carries `whole_run`.
+#[allow(clippy::too_many_arguments)]
+pub fn leaf_conformance<A>(ctx: &mut Ctx, site: &str, model_name: &str, cfg: &Cfg, init: &[Snap], actions: &[Action], st: &Step<A>, depth: usize, extra: serde_json::Value) {
+    if !(st.path.len() == depth || st.path.len() == 2) {
+        return;
+    }
+    if st.path.iter().any(|&i| !matches!(actions[i].act, Act::Line(_))) {
+        return;
+    }
+    ctx.count("whole-run-conformance");
+    if let Some((o, got)) = whole_run_matches(cfg, init, actions, st.path, st.post) {
+        let names = path_names(actions, st.path);
+        let path = st.path.to_vec();
+        let d = got.iter().zip(st.post.iter()).filter(|(a, b)| a != b).map(|(a, b)| crate::snap::diff_fields(b, a).join("; ")).collect::<Vec<_>>().join(" | ");
+        let mut ex = extra;
+        if let Some(m) = ex.as_object_mut() {
+            m.insert("whole_run".into(), serde_json::json!(true));
+        }
+        ctx.violation(
+            &format!("{site}/history-in-one-run/{}", cfg.label()),
+            &names.join(" > "),
+            || format!("[{}] fed as one stream ({}) gives a different table than the same frames applied one by one: {d} ({} vs {} rows)", names.join(" > "), o.label(), got.len(), st.post.len()),
+            || serde_json::json!({"model": model_name, "cfg": cfg.opts, "path": path, "extra": ex}),
+        );
+    }
+}
+
+/// replay side of `leaf_conformance`; returns true when the case was a whole-run case
+pub fn replay_leaf_conformance<A>(ctx: &mut Ctx, case: &serde_json::Value, site: &str, cfg: &Cfg, init: &[Snap], actions: &[Action], st: &Step<A>) -> bool {
+    if case.pointer("/extra/whole_run").is_none() {
+        return false;
+    }
+    match whole_run_matches(cfg, init, actions, st.path, st.post) {
+        Some((o, got)) => {
+            crate::run::say(&format!("  one continuous run: {}, {} rows; step by step: {} rows; identical: false", o.label(), got.len(), st.post.len()));
+            ctx.violation(&format!("{site}/history-in-one-run"), "replay", || "continuous run differs from step-by-step".into(), || case.clone());
+        }
+        None => crate::run::say("  one continuous run gives the same table as step by step"),
+    }
+    true
+}
